@@ -184,7 +184,17 @@ def report(prop,tier,seed,repo,meta,results,extras,known,lock,t0,verbose):
                                 detail=json.dumps(dict(status=o['status'],solver=o['solver'],detail=o['detail'],candidate_model=o.get('cex')),indent=1,default=str)),VERIF)
         violations.append((o['name'],path,True,o.get('cex')))
       else:
-        undecided.append(o['name']+' :: '+str(o.get('detail') or o.get('cex')))
+        # the solver left it open (quantified VCs give no model): a contract failure of the real function found by the native sampler
+        # of the same contract is the failing input
+        nf=[f for f in (samp or {}).get('failures',[]) if 'failed' in f and f.get('args_json') is not None]
+        if nf:
+          if not any(v[0].startswith('sampled::'+r['key']) for v in violations):
+            f=nf[0]; path=os.path.join(outdir,f"{prop}-sampled-{safe(r['key'])}.py")
+            replay_mod.write_replay(path,dict(kind='native-args',property=prop,obligation=o['name'],contract=r['key'],lines=r.get('lines'),
+                                    args=f['args_json'],expected_failure=f['failed'],repo=repo),VERIF)
+            violations.append(('sampled::'+r['key']+' (open obligation '+o['name']+')',path,False,dict(args=f['args'],native=dict(failed=f['failed']))))
+        else:
+          undecided.append(o['name']+' :: '+str(o.get('detail') or o.get('cex')))
     # differential / cover
     if samp and r['ok']:
       allproved=all(o['status']=='proved' for o in r['obligations'])
